@@ -144,11 +144,13 @@ class SpawnBase(object):
     # In bytes mode, regex patterns should also be of bytes type
     def _coerce_expect_re(self, r):
         p = r.pattern
+        # The pattern keeps the flags its author compiled it with (except the
+        # two that belong to one string type only).
         if self.encoding is None and not isinstance(p, bytes):
-            return re.compile(p.encode('utf-8'))
+            return re.compile(p.encode('utf-8'), r.flags & ~re.UNICODE)
         # And vice-versa
         elif self.encoding is not None and isinstance(p, bytes):
-            return re.compile(p.decode('utf-8'))
+            return re.compile(p.decode('utf-8'), r.flags & ~re.LOCALE)
         return r
 
     def _coerce_send_string(self, s):
